@@ -317,8 +317,73 @@ func runC07(c *Ctx) error {
 		}
 		c.count(tag, true, "ending="+ending, "parallel=false")
 	}
+	// ---- parallel handling: a handler that is still running when the connection ends and only returns once OnClose has
+	// run (the per-connection done-channel pattern): OnClose must not wait for it
+	for _, server := range []bool{true, false} {
+		for _, ending := range []string{"peerclose", "eof", "protoerr"} {
+			done := make(chan struct{})
+			var once sync.Once
+			h := &recHandler{}
+			started := make(chan struct{}, 4)
+			h.onMsg = func(*gws.Conn, gws.Opcode, []byte) {
+				started <- struct{}{}
+				select {
+				case <-done:
+				case <-time.After(8 * time.Second):
+				}
+			}
+			wrap := &closeNotify{recHandler: h, fn: func() { once.Do(func() { close(done) }) }}
+			spec := connSpec{Server: server, Parallel: true, ParallelN: 2}
+			conn, tap, err := spec.open(wrap)
+			if err != nil {
+				return err
+			}
+			stream := dataFrame(1, true, server, []byte("handled until the connection closes"))
+			switch ending {
+			case "peerclose":
+				stream = append(stream, dataFrame(8, true, server, []byte{0x03, 0xe8})...)
+			case "protoerr":
+				stream = append(stream, encodeFrame(frameSpec{Fin: true, Rsv2: true, Opcode: 2, Masked: server, Payload: []byte("x"), DeclLen: -1})...)
+			}
+			tap.feed(stream)
+			tap.setEOF()
+			rl := make(chan struct{})
+			go func() { defer close(rl); conn.ReadLoop() }()
+			returned := false
+			select {
+			case <-rl:
+				returned = true
+			case <-time.After(4 * time.Second):
+			}
+			closes := 0
+			for _, e := range h.events() {
+				if e.Kind == "close" {
+					closes++
+				}
+			}
+			tag := fmt.Sprintf("handler waits for OnClose role=%s ending=%s", roleName(server), ending)
+			if !returned || closes != 1 {
+				c.oracleFail(fmt.Sprintf("parallel handling with a handler that returns only after OnClose: ReadLoop returned=%v within 4 s, OnClose ran %d times [%s]", returned, closes, tag),
+					"onclose-waits-for-handlers-hang", map[string]any{"tag": tag})
+			}
+			once.Do(func() { close(done) })
+			<-rl
+			c.count(tag, true, "ending="+ending, "parallel=true")
+		}
+	}
 	// goroutines started by parallel handling must all have finished
 	var wg sync.WaitGroup
 	wg.Wait()
 	return nil
+}
+
+// closeNotify runs fn when OnClose is delivered (after recording it)
+type closeNotify struct {
+	*recHandler
+	fn func()
+}
+
+func (h *closeNotify) OnClose(s *gws.Conn, e error) {
+	h.recHandler.OnClose(s, e)
+	h.fn()
 }
